@@ -21,6 +21,7 @@ func init() {
 		},
 		Assumptions: commonAssumptions,
 		Engines:     "TABLE (decision-table extraction over order regions), GUARD, PATH, MIRROR",
+		TagMatrix:   [][]string{{"integration"}},
 		Run:         runC03,
 	})
 }
